@@ -5,6 +5,7 @@ import (
 	"go/ast"
 	"go/token"
 	"go/types"
+	"golang.org/x/tools/go/cfg"
 	"sort"
 	"strings"
 )
@@ -46,10 +47,23 @@ func (c *Ctx) lintBindingFormsField(field string, position int) (map[string]bool
 				}
 				flag := false
 				if vcl, ok := kv.Value.(*ast.CompositeLit); ok {
+					// the field is identified by its POSITION in the entry struct (its name may change)
+					var st *types.Struct
+					if tv, ok := info.Types[vcl]; ok {
+						st, _ = tv.Type.Underlying().(*types.Struct)
+					}
 					for i, fe := range vcl.Elts {
 						if fkv, ok := fe.(*ast.KeyValueExpr); ok {
-							if id, ok := fkv.Key.(*ast.Ident); ok && id.Name == field {
-								flag = isBoolConst(info, fkv.Value, true)
+							if id, ok := fkv.Key.(*ast.Ident); ok {
+								idx := -1
+								for k := 0; st != nil && k < st.NumFields(); k++ {
+									if st.Field(k) == info.Uses[id] || st.Field(k).Name() == id.Name {
+										idx = k
+									}
+								}
+								if idx == position || (idx < 0 && id.Name == field) {
+									flag = isBoolConst(info, fkv.Value, true)
+								}
 							}
 						} else if i == position && isBoolConst(info, fe, true) {
 							flag = true
@@ -267,9 +281,11 @@ func init() {
 				}
 			}
 			var funP, scopeP types.Object
-			for _, p := range boolPs {
-				switch p.Name() {
-				case "valuesInScope":
+			// identified by position (bindingList hands its second and third results on in order):
+			// the first boolean says "binds functions", the second "entries see the bindings"
+			for i, p := range boolPs {
+				switch {
+				case p.Name() == "valuesInScope" || (i == 1 && len(boolPs) == 2):
 					scopeP = p
 				default:
 					if funP == nil {
@@ -521,6 +537,18 @@ func init() {
 						if ce, ok := ast.Unparen(r).(*ast.CallExpr); ok && originOf(Callee(info, ce)) == m {
 							v, def = identObj(info, as.Lhs[i]), as
 						}
+						// ... or the bound is put straight into a spec value: spec := aritySpec{min: sig.MinArity(), …}
+						if cl, ok := ast.Unparen(r).(*ast.CompositeLit); ok {
+							for _, el := range cl.Elts {
+								val := el
+								if kv, ok := el.(*ast.KeyValueExpr); ok {
+									val = kv.Value
+								}
+								if ce, ok := ast.Unparen(val).(*ast.CallExpr); ok && originOf(Callee(info, ce)) == m {
+									v, def = identObj(info, as.Lhs[i]), as
+								}
+							}
+						}
 					}
 					return true
 				})
@@ -539,9 +567,16 @@ func init() {
 							if identObj(info, l) == v {
 								nwrites++
 							}
+							// a field of the spec value written afterwards is an adjustment too
+							if se, ok := ast.Unparen(l).(*ast.SelectorExpr); ok && identObj(info, se.X) == v {
+								nwrites++
+							}
 						}
 					case *ast.IncDecStmt:
 						if identObj(info, x.X) == v {
+							nwrites++
+						}
+						if se, ok := ast.Unparen(x.X).(*ast.SelectorExpr); ok && identObj(info, se.X) == v {
 							nwrites++
 						}
 					case *ast.UnaryExpr:
@@ -1585,26 +1620,42 @@ func init() {
 			if len(bare) == 0 || len(qualified) == 0 {
 				return []Obligation{mkOb(c, rid, u, "lookup order", fd, Undecided, "the function no longer consults both Scope.Symbols and Scope.PackageSymbols", true)}
 			}
-			// the package test: a condition `pkg != ""` whose true edge leads to the qualified lookup
-			var testLoc *Loc
-			for _, b := range fc.G.Blocks {
-				if !fc.Live(b) {
-					continue
+			// every path to the bare-name lookup passes the package-qualified lookup or an edge that
+			// establishes there is no package (`pkg == ""`, written out or through a named boolean)
+			cls := func(e ast.Expr) (string, bool) {
+				be, ok := ast.Unparen(e).(*ast.BinaryExpr)
+				if !ok || (be.Op != token.NEQ && be.Op != token.EQL) {
+					return "", false
 				}
-				if cnd := fc.CondOf(b); cnd != nil {
-					if be, ok := ast.Unparen(cnd).(*ast.BinaryExpr); ok && (be.Op == token.NEQ || be.Op == token.EQL) {
-						if s, ok := constStringVal(info, be.Y); ok && s == "" {
-							l := Loc{b, len(b.Nodes) - 1}
-							testLoc = &l
+				for _, pr := range [][2]ast.Expr{{be.X, be.Y}, {be.Y, be.X}} {
+					if s, ok := constStringVal(info, pr[1]); ok && s == "" {
+						if o := identObj(info, pr[0]); o != nil {
+							for _, pp := range paramObjs(u) {
+								if pp == o {
+									return "nopkg", be.Op == token.NEQ
+								}
+							}
 						}
 					}
 				}
+				return "", false
 			}
-			if testLoc == nil {
+			cut := fc.edgesEntailing(cls, func(v map[string]bool) bool { return v["$has:nopkg"] && v["nopkg"] })
+			if len(cut) == 0 {
 				return []Obligation{mkOb(c, rid, u, "lookup order", fd, Undecided, "no `pkg != \"\"` test found", true)}
 			}
+			blocked := map[*cfg.Block]bool{}
+			for _, q := range qualified {
+				blocked[q.B] = true
+			}
 			for _, bl := range bare {
-				if !fc.Dominates(*testLoc, bl) {
+				same := false
+				for _, q := range qualified {
+					if q.B == bl.B && q.I <= bl.I {
+						same = true
+					}
+				}
+				if !same && (blocked[bl.B] || fc.reachableAvoidingBlocks(bl.B, cut, blocked)) {
 					return []Obligation{mkOb(c, rid, u, "lookup order", bareNode, Violated, "the bare-name table is consulted before the package-qualified entries: in a package that defines a function named like a builtin, (defun first (xs default) …), the name resolves to the builtin — user-arity skips the call (not a user function) after builtin-arity stepped aside for the defun, so (first '()) passes lint and fails argument binding at run time", true)}
 				}
 			}
